@@ -298,9 +298,24 @@ def classify(body, event):
             else:
                 site.fates.append(("swallowed", "Err(e) arm never uses the error", sb))
         else:
-            # the best thing that happens to the payload decides this arm
+            # the best thing that happens to the payload decides this arm ...
             best = min(pf, key=lambda f: SEVERITY[f[0]])
             site.fates.append(best)
+            # ... unless some path through the Err arm avoids every reporting / propagating use
+            # (e.g. a guarded arm `Err(e) if lenient(e) => continue` next to the reporting one)
+            if best[0] in ("reported", "propagated"):
+                good_nodes = {f[2] for f in pf if f[0] in ("reported", "propagated")}
+                err_nodes = set()
+                for bb2, j2, st2 in body.all_assigns():
+                    rv2 = st2["rv"]
+                    if rv2["rk"] == "agg" and rv2.get("variant") == "Err" and rv2.get("adt") == "std::result::Result":
+                        err_nodes.add(bb2)
+                stop = good_nodes | err_nodes
+                reach = body.reachable(err_t, removed_nodes=stop)
+                exits = [r for r in body.return_blocks() if r in reach]
+                loops = event.bb in reach and event.bb not in stop
+                if (exits or loops) and err_t not in stop:
+                    site.fates.append(("swallowed", "an Err path neither reports nor propagates the error", sb))
     if not used and not site.fates:
         site.fates.append(("swallowed", "unused", event.bb))
     return site
